@@ -309,7 +309,7 @@ fn gen_locate(tier: Tier, mut i: u64) -> (&'static Corpus, u64) {
 /// outcome of running a built program from its entry: the value or the failure kind, shown as text
 fn run_shown<D: Subject>(d: &mut D, entry: usize) -> String {
     let r = (|| -> Result<V, crate::subj::Fail> {
-        start(d, entry, &V::Int(5))?;
+        start(d, entry, &V::Int(0))?;
         run_to_end(d, 3000)?;
         current_value(d)
     })();
